@@ -58,7 +58,13 @@ func (w *World) addTimer(t *vtimer) {
 func (w *World) delTimer(t *vtimer) bool {
 	for i, x := range w.timers {
 		if x == t {
-			w.timers = append(w.timers[:i], w.timers[i+1:]...)
+			// manual shift: the append/copy runtime helpers report their accesses to the race detector, and this
+			// slice is shared by all threads of the execution without a visible happens-before edge
+			for j := i; j+1 < len(w.timers); j++ {
+				w.timers[j] = w.timers[j+1]
+			}
+			w.timers[len(w.timers)-1] = nil
+			w.timers = w.timers[:len(w.timers)-1]
 			t.pending = false
 			return true
 		}
